@@ -159,3 +159,52 @@ Lemma bare_inittable_on_varless_flavor :
   wf h_bare = true /\ g_init (decls h_bare) 2 [(1, 5%Z)] = false /\
   make_instance (final h_bare) 2 [(1, 5%Z)] = Some ([(1, 5%Z)], []) /\ s_make (decls h_bare) 2 [(1, 5%Z)] = None.
 Proof. vm_compute. repeat split. Qed.
+
+(* ---- a whopper that continues twice (round-4 seed c11-11) -------------------------------------------------------- *)
+(* leaf (3) <- mid (2) <- base (1): whoppers on all three, the leaf's continues TWICE (a retry), the others once; a
+   :before daemon and the primary on base.  Every pass runs the whoppers of mid and base again. *)
+Definition h_retry : list form :=
+  [fl 1 []; fl 2 [1]; fl 3 [2];
+   DMethod 3 DWhopper (MUser 1) 33 CTwice; DMethod 2 DWhopper (MUser 1) 23 true; DMethod 1 DWhopper (MUser 1) 13 true;
+   DMethod 1 DBefore (MUser 1) 11 false; DMethod 1 DPrimary (MUser 1) 10 false].
+Lemma retry_history :
+  wf h_retry = true /\
+  send (final h_retry) 3 (MUser 1) None =
+    ([Ev 33; Ev 23; Ev 13; Ev 11; Ev 10; EvEnd 13; EvEnd 23; Ev 23; Ev 13; Ev 11; Ev 10; EvEnd 13; EvEnd 23; EvEnd 33], RVal 10) /\
+  s_send (s_var (decls h_retry) 3) None (s_table (spec h_retry) 3 (MUser 1)) = send (final h_retry) 3 (MUser 1) None.
+Proof. vm_compute. repeat split. Qed.
+(* WhopLoc.Continue with ONE location object for the whole chain (the seeded change: "wl.Current = i" and the same object
+   bound in the inner whopper's scope): the location is threaded through the calls; when control is back in the outer
+   whopper it points at the innermost whopper reached, so the second continue goes straight to the daemons *)
+Fixpoint continue_shared (fuel : nat) (cs : list combo) (inner : out) (loc : nat) : out * nat :=
+  match fuel with
+  | O => (([], ROutOfFuel), loc)
+  | S k => match wrap_from cs (S loc) with
+           | None => (inner, loc)
+           | Some (j, b) =>
+               match b with
+               | BUser id CNo => (([Ev id; EvEnd id], RVal (Z.of_nat id)), j)
+               | BUser id COnce => let '(o1, l1) := continue_shared k cs inner j in ((Ev id :: fst o1 ++ [EvEnd id], snd o1), l1)
+               | BUser id CTwice => let '(o1, l1) := continue_shared k cs inner j in
+                                    let '(o2, l2) := continue_shared k cs inner l1 in
+                                    ((Ev id :: fst o1 ++ fst o2 ++ [EvEnd id], snd o2), l2)
+               | _ => (([], ROther), j)
+               end
+           end
+  end.
+Definition retry_combos : list combo :=
+  [{| c_from := 3; c_prim := None; c_bef := None; c_aft := None; c_wrap := Some (BUser 33 CTwice) |};
+   {| c_from := 2; c_prim := None; c_bef := None; c_aft := None; c_wrap := Some (BUser 23 true) |};
+   {| c_from := 1; c_prim := Some (BUser 10 false); c_bef := Some (BUser 11 false); c_aft := None; c_wrap := Some (BUser 13 true) |}].
+Lemma shared_location_skips_on_retry :
+  (* the location of the first whopper is index 0: Method.Call scans from 0 *)
+  fst (match wrap_from retry_combos 0 with
+       | Some (_, BUser id CTwice) =>
+           let '(o1, l1) := continue_shared 9 retry_combos (inner_call true false (fun _ => None) None retry_combos) 0 in
+           let '(o2, l2) := continue_shared 9 retry_combos (inner_call true false (fun _ => None) None retry_combos) l1 in
+           ((Ev id :: fst o1 ++ fst o2 ++ [EvEnd id], snd o2), l2)
+       | _ => (([], ROther), 0)
+       end) = ([Ev 33; Ev 23; Ev 13; Ev 11; Ev 10; EvEnd 13; EvEnd 23; Ev 11; Ev 10; EvEnd 33], RVal 10) /\
+  method_call retry_combos (inner_call true false (fun _ => None) None retry_combos) =
+    ([Ev 33; Ev 23; Ev 13; Ev 11; Ev 10; EvEnd 13; EvEnd 23; Ev 23; Ev 13; Ev 11; Ev 10; EvEnd 13; EvEnd 23; EvEnd 33], RVal 10).
+Proof. vm_compute. repeat split. Qed.
